@@ -33,4 +33,6 @@ func init() {
 	shareRow("C02", "D5-v2-revise-renew-then-again", "C04")
 	// a forged or resolved contract listed as expiring is paid out (again)
 	shareRow("C04", "M1-v1-expiring-supplement", "C07", "C02")
+	// proving a contract before the window of its latest revision opens is a boundary matter too
+	shareRow("C07", "D5-v1-revise-prove-in-block", "C08")
 }
